@@ -128,24 +128,16 @@ theorem exaEncodeLength_eq (n : Nat) (h : n ≤ 4095) : exaEncodeLength n = .ok 
   · simp [h]
 
 /-- **ExaBGP's encoder on good text.** -/
-theorem exaPack_good (sizeOf : Nat → Nat) (v6 : Bool) (rd : Option Bytes) (text : List TComp)
+theorem exaPack_good (sizeOf : Nat → Nat) (v6 hint6 : Bool) (rd : Option Bytes) (text : List TComp)
     (hs : SizesOk sizeOf) (hg : GoodText v6 text)
     (hlen : (nlriPayload ⟨rd, toRule v6 text⟩).length ≤ 4095) :
-    exaPack sizeOf rd text = .ok (text.any (fun c => c.isV6), encodeNlri ⟨rd, toRule v6 text⟩) := by
-  have hadd : exaAdd false [] text = (false || text.any (fun c => c.isV6), [] ++ text) := by
-    apply exaAdd_same_family v6
-    intro c hc hp
-    have hgc := hg.comps c (by simpa using hc)
-    cases c with
-    | prefix4 _ _ _ => obtain ⟨hv, _⟩ := hgc; simp [TComp.isV6, hv]
-    | prefix6 _ _ _ _ => obtain ⟨hv, _⟩ := hgc; simp [TComp.isV6, hv]
-    | op _ _ _ => simp [TComp.isPrefix] at hp
+    exaPack sizeOf hint6 rd text = .ok (exaFamily hint6 text, encodeNlri ⟨rd, toRule v6 text⟩) := by
   have hids := exaPackIds_good sizeOf v6 text allIds (fun id hid => exaPackGroup_good sizeOf v6 text id hs hg hid)
   have hpay : nlriPayload ⟨rd, toRule v6 text⟩ = rd.getD [] ++ encodeFlow (toRule v6 text) := rfl
   have hlen' := exaEncodeLength_eq _ hlen
   rw [hpay] at hlen'
   simp only [toRule] at hlen'
-  simp only [exaPack, hadd, Bool.false_or, List.nil_append, hids, hlen', encodeNlri, hpay, toRule]
+  simp only [exaPack, hids, hlen', encodeNlri, hpay, toRule]
   rfl
 
 end Exa.Flow
